@@ -1755,3 +1755,220 @@ func c01r14(rc *core.RC) {
 		rc.Unknown("vm*/Run", token.NoPos, "found %d interpreters", n)
 	}
 }
+
+// ---- C01.R15 the null exit of a marshaler opcode depends on the type ----
+
+// encoding/json writes null for a nil value of a marshaler type without calling the method only when the value is a
+// pointer or an interface; a nil map or func, and a struct or array that is one nil pointer, are handed to the method.
+// In the encoder the decision is taken in two places: the handlers of OpMarshalJSON / OpMarshalText (values at the
+// root, in interfaces, elements) leave with null on a zero word, and the struct-field handlers do so under
+// NilCheckFlags, which the compiler derives from StructFieldCode.isNilCheck. Both have to depend on the type: an
+// unconditional exit, or a flag that is the constant true, writes null where encoding/json calls the method.
+func c01r15(rc *core.RC) {
+	p := rc.P
+	n := 0
+	for _, vm := range []string{"vm", "vm_indent", "vm_color", "vm_color_indent"} {
+		fd := p.Func(vm, "Run")
+		if fd == nil || fd.Body == nil {
+			rc.Unknown(vm+".Run", token.NoPos, "interpreter not found")
+			continue
+		}
+		info := p.Info(fd)
+		rc.Touch(vm + ".Run")
+		ast.Inspect(fd.Body, func(m ast.Node) bool {
+			cc, ok := m.(*ast.CaseClause)
+			if !ok || len(cc.List) != 1 {
+				return true
+			}
+			sel, ok := core.Unparen(cc.List[0]).(*ast.SelectorExpr)
+			if !ok || (sel.Sel.Name != "OpMarshalJSON" && sel.Sel.Name != "OpMarshalText") {
+				return true
+			}
+			// the first zero test of the handler
+			for _, st := range cc.Body {
+				ifs, isIf := st.(*ast.IfStmt)
+				if !isIf {
+					continue
+				}
+				zero, cond := false, false
+				for _, cj := range conjuncts(ifs.Cond) {
+					if be, isBin := core.Unparen(cj).(*ast.BinaryExpr); isBin && be.Op == token.EQL {
+						if v, isC := core.ConstInt(info, be.Y); isC && v == 0 {
+							zero = true
+							continue
+						}
+					}
+					cond = true
+				}
+				if !zero {
+					continue
+				}
+				n++
+				key := fmt.Sprintf("%s.Run/case %s/null-exit-depends-on-the-type", vm, sel.Sel.Name)
+				rc.Check(cond, key, ifs.Pos(), "the handler leaves with null (or \"\") on a zero word only under a further condition on the opcode (a flag the compiler derives from the kind of the type): unconditional, a nil map, func or pointer-shaped struct with a value-receiver marshaler is written as null where encoding/json calls the method")
+				break
+			}
+			return true
+		})
+	}
+	if n < 8 {
+		rc.Unknown("vm/marshaler-null-exits", token.NoPos, "found %d zero tests at the head of the OpMarshalJSON/OpMarshalText handlers (confirmed: 8)", n)
+	}
+	// the compiler's flag
+	fd := p.Func("encoder", "Compiler.structFieldCode")
+	if fd == nil || fd.Body == nil {
+		rc.Unknown("encoder.structFieldCode", token.NoPos, "function not found")
+		return
+	}
+	info := p.Info(fd)
+	rc.Touch(p.FuncName(fd))
+	found := false
+	ast.Inspect(fd.Body, func(m ast.Node) bool {
+		kv, ok := m.(*ast.KeyValueExpr)
+		if !ok {
+			return true
+		}
+		id, ok := kv.Key.(*ast.Ident)
+		if !ok || id.Name != "isNilCheck" {
+			return true
+		}
+		found = true
+		key := p.FuncName(fd) + "/isNilCheck derived-from-the-type"
+		v := core.ConstValue(info, kv.Value)
+		rc.Check(v == nil, key, kv.Pos(), "the nil check of a member's value opcode is computed from the member's type (%s): the constant true makes every nil map, func or pointer-shaped struct with a value-receiver marshaler null, where encoding/json calls the method", core.Src(p.Fset, kv.Value))
+		return true
+	})
+	if !found {
+		rc.Unknown(p.FuncName(fd)+"/isNilCheck", fd.Pos(), "the field code literal does not set isNilCheck")
+	}
+}
+
+// ---- C01.R16 only an embedding of the struct itself adds nothing ----
+
+// structCode leaves out an embedded struct whose code is marked recursive (a struct type whose compilation is in
+// progress). That is right when the embedded struct is the struct being compiled (type T struct{ *T; N int }: its
+// members are hidden by T's own). It is wrong for an enclosing struct of a recursive definition (type R struct{ Kids
+// []RW }; type RW struct{ R; Name string }): the members of R are promoted into RW and encoding/json writes them.
+// The skip therefore has to compare the embedded type with the type being compiled.
+func c01r16(rc *core.RC) {
+	p := rc.P
+	fd := p.Func("encoder", "Compiler.structCode")
+	if fd == nil || fd.Body == nil {
+		rc.Unknown("encoder.structCode", token.NoPos, "function not found")
+		return
+	}
+	info := p.Info(fd)
+	fn := p.FuncName(fd)
+	rc.Touch(fn)
+	var typParam types.Object
+	if len(fd.Type.Params.List) > 0 && len(fd.Type.Params.List[0].Names) > 0 {
+		typParam = info.Defs[fd.Type.Params.List[0].Names[0]]
+	}
+	n := 0
+	ast.Inspect(fd.Body, func(m ast.Node) bool {
+		ifs, ok := m.(*ast.IfStmt)
+		if !ok || len(ifs.Body.List) == 0 {
+			return true
+		}
+		br, isBr := ifs.Body.List[len(ifs.Body.List)-1].(*ast.BranchStmt)
+		if !isBr || br.Tok != token.CONTINUE {
+			return true
+		}
+		recursive, sameType := false, false
+		ast.Inspect(ifs.Cond, func(k ast.Node) bool {
+			switch x := k.(type) {
+			case *ast.SelectorExpr:
+				if x.Sel.Name == "isRecursive" {
+					recursive = true
+				}
+			case *ast.BinaryExpr:
+				if x.Op == token.EQL && typParam != nil && (core.ObjOf(info, x.X) == typParam || core.ObjOf(info, x.Y) == typParam) {
+					sameType = true
+				}
+			}
+			return true
+		})
+		if !recursive {
+			return true
+		}
+		n++
+		key := fn + "/recursive-embedded-struct-skipped only-when-it-is-the-struct-itself"
+		rc.Check(sameType, key, ifs.Pos(), "an embedded struct whose compilation is in progress is left out only when it is the struct being compiled (the condition compares its type with %s): an enclosing struct of a recursive definition that is embedded further down has members to promote", typParam.Name())
+		return true
+	})
+	if n == 0 {
+		rc.Unknown(fn+"/recursive-embedded-struct-skipped", fd.Pos(), "the skip of a recursive embedded struct was not found")
+	}
+	// the decoder's twin: compileStruct promotes the members of an embedded struct from that struct's field map; a
+	// decoder taken from the memo of structs in progress has an unfinished field map
+	dfd := p.Func("decoder", "compileStruct")
+	if dfd == nil || dfd.Body == nil {
+		rc.Unknown("decoder.compileStruct", token.NoPos, "function not found")
+		return
+	}
+	dinfo := p.Info(dfd)
+	rc.Touch("decoder.compileStruct")
+	var memo types.Object
+	for _, f := range dfd.Type.Params.List {
+		for _, nm := range f.Names {
+			if o := dinfo.Defs[nm]; o != nil {
+				if _, isMap := o.Type().Underlying().(*types.Map); isMap {
+					memo = o
+				}
+			}
+		}
+	}
+	k := 0
+	ast.Inspect(dfd.Body, func(m ast.Node) bool {
+		rs, ok := m.(*ast.RangeStmt)
+		if !ok {
+			return true
+		}
+		f := core.FieldOf(dinfo, rs.X)
+		if f == nil || f.Name() != "fieldMap" {
+			return true
+		}
+		sel, ok := core.Unparen(rs.X).(*ast.SelectorExpr)
+		if !ok {
+			return true
+		}
+		if t := dinfo.TypeOf(sel.X); t == nil || !strings.HasSuffix(t.String(), "decoder.structDecoder") {
+			return true
+		}
+		k++
+		key := fmt.Sprintf("decoder.compileStruct/promotion#%d only-from-a-finished-decoder", k)
+		// a condition on the way to the loop (or a returning/continuing guard before it in the same block) that consults the memo
+		consults := false
+		for _, c := range condChainNodes(dfd, rs) {
+			ast.Inspect(c.cond, func(x ast.Node) bool {
+				if id, isID := x.(*ast.Ident); isID && memo != nil && dinfo.Uses[id] == memo {
+					consults = true
+				}
+				return true
+			})
+		}
+		path := core.PathTo(dfd.Body, rs)
+		if len(path) >= 2 {
+			if blk, isBlk := path[len(path)-2].(*ast.BlockStmt); isBlk {
+				for _, st := range blk.List {
+					if st == ast.Stmt(rs) {
+						break
+					}
+					if ifs, isIf := st.(*ast.IfStmt); isIf {
+						ast.Inspect(ifs, func(x ast.Node) bool {
+							if id, isID := x.(*ast.Ident); isID && memo != nil && dinfo.Uses[id] == memo {
+								consults = true
+							}
+							return true
+						})
+					}
+				}
+			}
+		}
+		rc.Check(consults, key, rs.Pos(), "the members of an embedded struct are promoted from its decoder's field map only after a test that the decoder is not one whose compilation is in progress (the memo %s): an enclosing struct of a recursive definition has an empty field map at that moment and nothing is promoted", core.Src(p.Fset, rs.X))
+		return true
+	})
+	if k < 2 {
+		rc.Unknown("decoder.compileStruct/promotions", dfd.Pos(), "found %d promotion loops over an embedded struct decoder's field map (confirmed: 2)", k)
+	}
+}
